@@ -174,3 +174,39 @@ def odd_characters():
         for i, text in enumerate(shapes):
             for style in (False, True):
                 yield gen.cfg_index(0, style), text, ("odd-char", name, i)
+
+
+STMT_KINDS = {
+    "missing": dict(kvs=[], msg="plain {}", trailing=", 1"),
+    "missing+kv": dict(kvs=["a = 1", "b"], msg="with kv"),
+    "missing+target": dict(target='"t"', kvs=[], msg="with target"),
+    "msg-referenced": dict(kvs=[], msg="[ref: 41] has a message reference"),
+    "kv-referenced": dict(kvs=["ref = 42", "a = 1"], msg="has a ref key"),
+    "kv-unusable": dict(kvs=["ref = code"], msg="ref key with a variable"),
+    "kv-unusable-late": dict(kvs=["a = 1", "ref = x.id"], msg="ref key last"),
+}
+STMT_DIRECTIVES = ["", "// breadlog:ignore\n", "// breadlog:no-kvp\n"]
+
+
+def statement_kind_tuples(maxlen=3):
+    """Files holding 2..maxlen statements of different kinds (missing / referenced in the message / referenced by key-value /
+    unusable `ref` key), each optionally under a directive: what one statement needs must not leak into its neighbours."""
+    import itertools
+    names = sorted(STMT_KINDS)
+    for L in range(2, maxlen + 1):
+        for combo in itertools.product(names, repeat=L):
+            for dirs in itertools.product(range(len(STMT_DIRECTIVES)), repeat=L):
+                if sum(1 for d in dirs if d) > 1:
+                    continue
+                for style in (False, True):
+                    f = gen.File(style)
+                    f.raw("fn f() {\n")
+                    for k, d in zip(combo, dirs):
+                        f.raw(STMT_DIRECTIVES[d])
+                        st = gen.Stmt(**STMT_KINDS[k])
+                        f.stmt(st, ignored=(d == 1), no_kvp=(d == 2))
+                        f.raw(";\n")
+                    f.raw("}\n")
+                    code, exp = f.build()
+                    # in unstructured mode (or under no-kvp) the key-value kinds are simply statements without a message reference
+                    yield gen.cfg_index(0, style), code, ("stmt-kinds", (combo, dirs), exp)
